@@ -38,7 +38,7 @@ class AKLTChain(NearestNeighborModel, MPOModel):
         conserve = model_params.get('conserve', 'Sz', str)
         if conserve == 'best':
             conserve = 'Sz'
-            self.logger.info('%s: set conserve to %s', self.name, conserve)
+            self.logger.info('%s: set conserve to %s', self.__class__.__name__, conserve)
         sort_charge = model_params.get('sort_charge', True, bool)
         site = SpinSite(S=1.0, conserve=conserve, sort_charge=sort_charge)
 
